@@ -200,6 +200,28 @@ fn judge(rep: &mut Report, sc: &Scenario, main_bytes: &[(String, Vec<u8>)], lib_
         if ts == "inserted" && e.delegate_inherited_name.is_some() { rep.count(if e.delegate_inherited_name.as_deref() == Some(e.named.as_str()) { "target.inserted_although_an_ancestor_entry_gives_the_delegate_the_same_name" } else { "target.inserted_while_an_ancestor_entry_names_the_delegate_differently" }); }
         fp += &format!("|{ts}/{nsrc}/{}", e.named_hit.is_some_and(|h| h.1));
     }
+    // effects that touch each other (bridge chains, chains split over class and subclass, shared names): facts computed by the
+    // oracle from the jar and the INPUT mappings; the stale-read variant is the modelled defect class, it never judges
+    let cf = oracle::chain_facts(sc, &effs);
+    for (k, v) in [("chain.in_one_class.b1_before_b2_in_the_class_file", cf.b1_before_b2), ("chain.in_one_class.b2_before_b1_in_the_class_file", cf.b2_before_b1),
+        ("chain.in_one_class.differing_named_names.b1_first", cf.differing_b1_first), ("chain.in_one_class.differing_named_names.b2_first", cf.differing_b2_first),
+        ("chain.in_one_class.entry_of_b2_created_by_the_effect_of_b1", cf.bridge_entry_created), ("chain.in_one_class.entry_of_b2_overwritten_by_the_effect_of_b1", cf.bridge_entry_overwritten),
+        ("chain.in_one_class.length3", cf.length3), ("chain.in_one_class.cycle", cf.cycles),
+        ("chain.across_class_and_subclass.bridge_named_through_an_entry_another_bridge_rewrites", cf.across_named_through_rewritten_entry),
+        ("chain.across_class_and_subclass.unnamed_bridge_and_another_bridge_creates_the_entry_above", cf.across_unnamed_bridge_entry_created_above),
+        ("chain.two_classes.same_official_names_and_descriptors", cf.shared_official_names), ("chain.two_classes.same_intermediary_keys_differing_named_names", cf.shared_intermediary_keys_differing_names)] {
+        if v > 0 { rep.add(k, v as u64); }
+    }
+    if cf.any_link() && !oracle::has_collision(&effs) {
+        let must: Vec<&Effect> = effs.iter().filter(|e| e.expect == Expect::Must).collect();
+        let reference = oracle::apply(&sc.mappings, &must);
+        let (fwd, rev) = (oracle::stale_read_variant(sc, &effs, false) != reference, oracle::stale_read_variant(sc, &effs, true) != reference);
+        if fwd { rep.count("chain.reading_the_mappings_being_produced_would_differ.bridges_in_description_order"); }
+        if rev { rep.count("chain.reading_the_mappings_being_produced_would_differ.bridges_in_reverse_order"); }
+        if fwd && rev { rep.count("chain.reading_the_mappings_being_produced_would_differ.in_both_orders"); }
+        if confirmed && (fwd || rev) { rep.count("chain.reading_the_mappings_being_produced_would_differ.confirmed_reference_output"); }
+        fp += &format!("|chain {}{}{}{}{}{}/{fwd}{rev}", cf.b1_before_b2.min(2), cf.b2_before_b1.min(2), cf.length3.min(1), cf.cycles.min(1), cf.across_named_through_rewritten_entry.min(1), cf.bridge_entry_created.min(1));
+    }
     if changes > 0 { rep.count("scenarios.with_expected_change"); } else { rep.count("scenarios.expected_unchanged"); }
     if changes > 0 || cands.iter().any(|c| c.expect == Expect::MustNot && c.why != "not synthetic") { rep.nontrivial(common::rng::fnv_str(&fp) ^ sc.main.classes.len() as u64); }
     if confirmed && changes > 0 && rep.want_sample() && (if source == "generated" { sc.main.classes.len() <= 40 } else { rep.cur.1 == 4 }) { rep.sample(|| json!({"source": source, "main_jar (classes with methods)": JarD { classes: sc.main.classes.iter().filter(|c| if source == "generated" { !c.methods.is_empty() } else { c.methods.iter().any(|m| m.access & SYNTHETIC != 0) }).cloned().collect() }.render(), "main_jar_hierarchy": sc.main.classes.iter().map(|c| format!("{} : {} {:?}", c.name, c.super_name, c.interfaces)).collect::<Vec<_>>(), "calamus": sc.calamus.render(), "mappings_in": sc.mappings.render(),
@@ -244,7 +266,7 @@ fn main() {
 
     let mut meta = Meta::new("exploration",
         "scenarios generated from a description (value-type universe, 1-3 motifs = one synthetic method each with holder chain, delegate, overridden declaration, noise methods), classes emitted by cf::emit from the description and read back by the independent parser, \
-         jar as ParsedJar or zip, optional library jar, two generated mapping sets; primary motif kind x name source x target-entry state cycle with the case index; plus jars of the javac corpus with generated mapping sets. \
+         jar as ParsedJar or zip, optional library jar, two generated mapping sets; primary motif kind x name source x target-entry state cycle with the case index; every second case additionally carries a motif in which the effects of several bridges touch each other (bridge chains of length 2-3 in one class with the methods in random order, chains split over a class and its subclass, two classes sharing official names, cycles, chains with a non-bridge in the middle); plus jars of the javac corpus with generated mapping sets. \
          evaluations = calls of add_specialized_methods_to_mappings judged; non-trivial = the expected output differs from the input or the jar contains a synthetic near miss; distinct = (motif kinds, per expected effect: target-entry state, name source, walk through unmapped class) fingerprint")
         .assume("names are injective per namespace; the class hierarchy is acyclic; calamus entries have both names")
         .assume("R-remap of DESIGN.md 9a is the meaning of 'through inheritance' (depth-first over super class then interfaces in class-file order, providers in order main jar, libraries; the walk does not stop at classes without entry)")
@@ -258,6 +280,14 @@ fn main() {
             "hierarchy.unflagged_bridge_deciding_super_type_behind_already_visited_parent.recursive_preorder", "hierarchy.unflagged_bridge_decided_in_hierarchy_with_redundant_parent",
             "jar.zip", "jar.parsed", "jar.with_library", "open.detected", "scenarios.expected_unchanged"] {
             meta.oblige(format!("at least 10 cases with {k}"), rep.get(k) >= 10);
+        }
+        for k in gen::CHAIN_KINDS { meta.oblige(format!("motif {k}: generated >= 20 times"), rep.get(&format!("kind.{k}")) >= 20); }
+        for k in ["chain.in_one_class.b1_before_b2_in_the_class_file", "chain.in_one_class.b2_before_b1_in_the_class_file", "chain.in_one_class.differing_named_names.b1_first", "chain.in_one_class.differing_named_names.b2_first",
+            "chain.in_one_class.entry_of_b2_created_by_the_effect_of_b1", "chain.in_one_class.entry_of_b2_overwritten_by_the_effect_of_b1", "chain.in_one_class.length3", "chain.in_one_class.cycle",
+            "chain.across_class_and_subclass.bridge_named_through_an_entry_another_bridge_rewrites", "chain.across_class_and_subclass.unnamed_bridge_and_another_bridge_creates_the_entry_above",
+            "chain.two_classes.same_official_names_and_descriptors", "chain.two_classes.same_intermediary_keys_differing_named_names",
+            "chain.reading_the_mappings_being_produced_would_differ.bridges_in_description_order", "chain.reading_the_mappings_being_produced_would_differ.bridges_in_reverse_order"] {
+            meta.oblige(format!("at least 20 of {k}"), rep.get(k) >= 20);
         }
         meta.oblige("all four invoke opcodes occur in expected bridges", rep.seen_n("invoke_opcodes_in_must_bridges") == 4);
         meta.oblige("near misses of every reason (zero / several callees, private, static, final, arity, incompatible types)", rep.seen_n("near_miss_reasons") >= 7);
